@@ -279,6 +279,19 @@ impl Prop for C11Prop {
         // 102 is printed f and re-read as 5.  Excused only when the two programs differ at nothing
         // but atoms where the re-assembled side holds the opcode whose NAME the other side spells.
         if let (Some(rh), Some(ch)) = (det.get("run_hex").and_then(|h| h.as_str()), det.get("cldb_hex").and_then(|h| h.as_str())) {
+            // the same printing of a computed atom as a bare word, where the word is a character
+            // that ends or breaks the text for any reader: 59 is printed ; (a comment to the end
+            // of the line), 34 ", 40 ( and 41 ) -- the text does not re-assemble at all.  Excused
+            // only when the text failed to read AND the program cldb compiles holds such an atom.
+            if rh.is_empty() && v.expected.contains("run prints: Internal Error") {
+                let c = sut::consensus_deserialize(&hex::decode(ch).ok()?).ok()?;
+                let mut atoms = vec![];
+                c.atoms(&mut atoms);
+                if atoms.iter().any(|a| a.len() == 1 && matches!(a[0], b';' | b'"' | b'(' | b')' | b'\'')) {
+                    return Some("printed-program-text-spells-computed-atoms-as-operator-names");
+                }
+                return None;
+            }
             let r = sut::consensus_deserialize(&hex::decode(rh).ok()?).ok()?;
             let c = sut::consensus_deserialize(&hex::decode(ch).ok()?).ok()?;
             fn only_name_vs_opcode(printed: &V, real: &V, any: &mut bool) -> bool {
